@@ -67,6 +67,23 @@ def matching (d : Design) (f : FactorD) (w : WindowD) (look : Nat → Nat → Op
   let key := windowKey d w look t
   (List.range f.levels.length).filter (fun i => ((f.levels[i]?).map (fun l => l.table.getD key false)).getD false)
 
+/-- trial from which a factor can be read: its start for a derived factor with a complex window, else 0 -/
+def readyAt (d : Design) (dep : Nat) : Nat := if isComplex d dep then start d dep else 0
+
+/-- Can some window the factor ever sees make level `l`'s predicate true?  A window position may be empty only when
+    the dependency is not yet readable there at the factor's first trial (`get_dependent_cross_product`). -/
+def levelPossible (d : Design) (id l : Nat) : Bool :=
+  let f := d.factor id
+  match f.window with
+  | none => true
+  | some w =>
+    let opts : List (List Nat × Nat) := w.deps.flatMap (fun dep =>
+      (List.range w.width).map (fun i =>
+        let lv := (List.range (numLevels d dep)).map (· + 1)
+        ((if readyAt d dep + w.width > start d id + i + 1 then 0 :: lv else lv), numLevels d dep + 1)))
+    let keys := opts.foldl (fun (acc : List Nat) o => acc.flatMap (fun k => o.1.map (fun dg => k * o.2 + dg))) [0]
+    keys.any (fun k => ((f.levels[l]?).map (fun lv => lv.table.getD k false)).getD false)
+
 /-! ## Geometry by the documented rules -/
 
 structure CrossInst where
@@ -176,6 +193,9 @@ def create (d : Design) (design : List Nat) (insts : List CrossInst) (old : List
   let equalBad := mode == .equal && (insts.zip weights).any (fun p => p.1.weight ≠ p.2)
   let preBad := align == .equalPreamble && pres.any (fun p => p ≠ pres.headD 0)
   let zeroSize := sizes.any (· == 0)
+  -- a crossed derived level that no window can ever produce makes a complete crossing impossible
+  let impossible := insts.any (fun i => i.factors.any (fun f =>
+    isComplex d f && (List.range (numLevels d f)).any (fun l => !(levelPossible d f l))))
   let common := match align with
     | .postPreamble => maxPre
     | _ => pres.headD 0
@@ -192,7 +212,7 @@ def create (d : Design) (design : List Nat) (insts : List CrossInst) (old : List
       if equalBad then some "RepeatMode.EQUAL with different crossing sizes"
       else if preBad then some "EQUAL_PREAMBLE with different preamble sizes"
       else if zeroSize then some "a crossing has no feasible combination"
-      else if rcc && incomplete then some "complete crossing unsatisfiable"
+      else if rcc && (incomplete || impossible) then some "complete crossing unsatisfiable"
       else none }
 
 def unionIds (a b : List Nat) : List Nat := a ++ b.filter (fun x => !a.contains x)
